@@ -67,7 +67,7 @@ theorem dispatch_examples (d : BDir) (kids : List BDir) (anc : List Up) (c : Cat
     (d.kind = .URL → addDirective [] d kids anc c = addURL d kids anc c) ∧
     (d.kind = .Get → addDirective [] d kids anc c = addHTTPMethod d kids anc c) ∧
     (d.kind = .Method → addDirective [] d kids anc c = addJsonRpcMethod d kids anc c) ∧
-    (d.kind = .Tags → addDirective [] d kids anc c = addTags d c) ∧
+    (d.kind = .Tags → addDirective [] d kids anc c = addTags d anc c) ∧
     (d.kind = .Body → addDirective [] d kids anc c = addBody d anc c) := by
   refine ⟨?_, ?_, ?_, ?_, ?_, ?_, ?_⟩ <;> intro h <;> simp [addDirective, h]
 
